@@ -209,7 +209,7 @@ class _GS:
         self.step_state = step_state
 
 
-def real_reset_start(V, nodes, start=None, keep_tokens=False):
+def real_reset_start(V, nodes, start=None, keep_tokens=False, keep_jit_reset=False):
     """Bring stub-built wrappers to the RUNNING state through the code under test: the real _AsyncNodeWrapper._reset (which resets every
     input through the real _AsyncConnectionWrapper.reset) and ._start (which starts every input), so that the initial drift, the initial
     'end of the previous step', the FIFO floor, the phases, the tick counters and the queues are rex's, not the harness's.  Only the
@@ -226,20 +226,27 @@ def real_reset_start(V, nodes, start=None, keep_tokens=False):
     old_rnd = A.rnd
     A.rnd = _Rnd
     try:
-        return _real_reset_start(V, nodes, start, keep_tokens, Async)
+        return _real_reset_start(V, nodes, start, keep_tokens, Async, keep_jit_reset)
     finally:
         A.rnd = old_rnd
 
 
-def _real_reset_start(V, nodes, start, keep_tokens, Async):
+def _real_reset_start(V, nodes, start, keep_tokens, Async, keep_jit_reset=False):
     toks = {}
     for w in nodes:
         w._state = Async.STOPPED
         w._eps -= 1
-        w._jit_reset = lambda rng: "dist_state"
+        # whatever an earlier episode (or warmup) left behind must not survive: stale scheduling state is poisoned so that a reset that
+        # fails to refresh it shows up in every timing obligation
+        w._phase, w._phase_scheduled, w._tick = 777, 555, 99
+        for c in w.inputs.values():
+            c._phase, c._prev_recv_sc, c._tick = 777, 555, 99
+        if not keep_jit_reset or w._jit_reset is None:
+            w._jit_reset = lambda rng: "dist_state"
         for c in w.inputs.values():
             c._state = Async.STOPPED
-            c._jit_reset = lambda rng: "dist_state"
+            if not keep_jit_reset or c._jit_reset is None:
+                c._jit_reset = lambda rng: "dist_state"
         ss = w._step_state
         try:
             w._reset(_GS({w.node.name: ss}), clock=w._clock, real_time_factor=w._real_time_factor)
